@@ -269,6 +269,7 @@ def run(repo, res, tier):
     res.rule("X-NAME", "emitted elements and attributes are allowed by the schema type of their parent", 80)
     res.rule("X-ORDER", "children of xs:sequence types are emitted in schema order", 15)
     res.rule("X-REQ", "required children / attributes are emitted", 30)
+    res.rule("X-CHOICE", "alternatives of an xs:choice that may be taken once are emitted under mutually exclusive tests", 3)
     res.rule("X-NUM", "decimal-typed text is produced by a positional formatter", 18)
     positional_rule(repo, res, repo.mod("commonroad/common/writer/file_writer_xml.py"))
     res.rule("X-ENUM", "enumeration-typed text is the value of the matching enum", 8)
@@ -436,6 +437,36 @@ def run(repo, res, tier):
         for (cn, ct, mn, mxo, cinl) in xch:
             if mn != "0" and cn not in choice_members:
                 res.check("X-REQ", "%s/%s (required) is emitted" % (path, cn), any(tg == cn for tg, c, r in emitted), mod, b.origin, "%s lacks required child %s" % (path, cn), "required element <%s> of <%s> is never written" % (cn, path.split("/")[-1]), qualname=b.fn)
+        # xs:choice taken once: children of different alternatives are never emitted together — their emissions
+        # stand under one test with opposite outcomes (if / elif / else), on every pair
+        for grp in getattr(xt, "single_choices", []):
+            recs = [(tg, r) for tg, c, r in emitted if tg in grp]
+            clash = None
+            for i, (ta, ra) in enumerate(recs):
+                for tb, rb in recs[i + 1 :]:
+                    if ta == tb or ra is rb:
+                        continue  # one append / extend statement: which alternative it carries is decided inside the builder it calls
+                    ga = {(g[0], bool(g[1])) for g in w.all_guards(ra) if isinstance(g, tuple) and len(g) >= 2}
+                    gb = {(g[0], bool(g[1])) for g in w.all_guards(rb) if isinstance(g, tuple) and len(g) >= 2}
+                    def excl(g1, g2):
+                        for t, p_ in g1:
+                            if (t, not p_) in g2:
+                                return True
+                            try:
+                                te = ast.parse(t, mode="eval").body
+                            except SyntaxError:
+                                continue
+                            # `a or b` holds here, and there each of a, b is known to fail (the else side of an elif chain)
+                            if p_ and isinstance(te, ast.BoolOp) and isinstance(te.op, ast.Or) and all((norm(v), False) in g2 for v in te.values):
+                                return True
+                            if not p_ and isinstance(te, ast.BoolOp) and isinstance(te.op, ast.And) and all((norm(v), True) in g2 for v in te.values):
+                                return True
+                        return False
+
+                    if not excl(ga, gb) and not excl(gb, ga):
+                        clash = clash or (ta, ra, tb, rb)
+            if recs:
+                res.check("X-CHOICE", "%s: alternatives %s of the choice are emitted under mutually exclusive tests" % (path, sorted({t for t, _r in recs})), clash is None, mod, clash[3].origin if clash else b.origin, "%s: <%s> and <%s> can both be emitted" % (path, clash[0] if clash else "", clash[2] if clash else ""), "the schema allows one alternative of the choice inside <%s>; with both present the file does not validate" % path.split("/")[-1], qualname=b.fn)
         # a required child must not hang on a test that a schema-expressible input can fail: every emission of it
         # stands under `<value> is not Enum.MEMBER` (or != / the else-branch of is / ==) although an object carrying
         # that member is expressible — the member's value is an enumeration value of a child of this very element
